@@ -693,6 +693,8 @@ func c10Known(in, out []int64) string {
 
 func init() {
 	Register(&Prop{ID: "C10", Num: 10, SpecMode: "equal", Gen: c10Gen, Impl: c10Impl,
+		// a requested capacity above 2^24: a wrong rounding can ask the runtime for 2^36 bytes, which kills the process
+		Isolate: func(in []int64) bool { return len(in) >= 2 && in[1] > 1<<24 },
 		Shrink: ShrinkOps(3, 2), Known: c10Known, Describe: c10Describe,
 		Rule: "exhaustive: Ring caps 1..5 x every sequence of mutators (Push, Pop, PushWithExpand, Recap(0,1,2,3,4,6), Init(2)) up to the tier's length with all observers after every step; SyncRing requested caps 1..9 x {fresh, counters injected at 2^32-1, 2^32-2, 2^32-cap, 2^32-cap-1, 2^33-3} x every Push/Pop sequence up to the tier's length; wrap window: counters at 2^32*m-k then 2k+cap random operations; random long sequences (Ring with Recap/PushWithExpand/Init at random rotations, SyncRing with random injected counters); capacity rounding for 2^j-1, 2^j, 2^j+1 (j <= 13) with operations, capacity alone for requests up to 2^26 (2^j +- small, 2^j+2^i, random; rings of empty structs), and requests > 2^31 (known finding F11); honest push/pop pairs against the closed form. distinct = distinct case; non-trivial = at least 3 mutating steps of at least 2 kinds (exhaustive), at least 2-3 operation kinds (random)"})
 }
